@@ -24,6 +24,7 @@ import z3
 from .common import Harness, zbool, instrumented
 
 PROPERTY = 'C07'
+LEVEL = 'exploration'      # the solver enumerates a schedule / skeleton; the data of a path are concrete (DESIGN.md section 4)
 
 G1 = '    """\n    Example:\n        >>> x = 1\n    """\n'
 G2 = '    """\n    Summary.\n\n    Example:\n        >>> x = 1\n\n    Example:\n        >>> y = 2\n    """\n'
